@@ -1626,10 +1626,12 @@ EnsureSizeAux(uint32 size, bool setNumItems, uint32 extraPreallocs, ItemType ** 
 {
    if (retOldArray) *retOldArray = NULL;  // default value, will be set non-NULL iff the old array needs deleting later
 
+   if ((setNumItems)&&(size < _itemCount)) (void) RemoveTailMulti(_itemCount-size);  // drop the surplus items first, so that the copy-loop below can never be asked to copy more items than the new array can hold
+
    if ((_queue == NULL)||(allowShrink ? (_queueSize != (size+extraPreallocs)) : (_queueSize < size)))
    {
       const uint32 sqLen = ARRAYITEMS(_smallQueue);
-      const uint32 temp  = size + extraPreallocs;
+      const uint32 temp  = muscleMax(size + extraPreallocs, _itemCount);  // never allocate fewer slots than we have items to keep
       uint32 newQLen = muscleMax((uint32)ARRAYITEMS(_smallQueue), ((setNumItems)||(temp <= sqLen)) ? muscleMax(sqLen,temp) : temp);
       if (newQLen == MUSCLE_NO_LIMIT) return B_RESOURCE_LIMIT;  // avoid a stupidly-large allocation if someone makes this mistake
 
@@ -1644,7 +1646,11 @@ EnsureSizeAux(uint32 size, bool setNumItems, uint32 extraPreallocs, ItemType ** 
             newQueue[i] = QQ_PlunderItem(GetItemAtUnchecked(i));  // we know that (_itemCount < size)
       }
 
-      if (setNumItems) _itemCount = size;
+      if (setNumItems)
+      {
+         if (IsPerItemClearNecessary() == false) {for (uint32 i=_itemCount; i<size; i++) newQueue[i] = GetDefaultItem();}  // new[] doesn't initialize trivial types
+         _itemCount = size;
+      }
       _headIndex = 0;
       _tailIndex = _itemCount-1;
 
@@ -1669,6 +1675,8 @@ EnsureSizeAux(uint32 size, bool setNumItems, uint32 extraPreallocs, ItemType ** 
       if (size > _itemCount)
       {
          // We can do this quickly because the "new" items are already initialized properly
+         // (except for trivial types, whose vacated slots are never reset, so we must reset them here)
+         if (IsPerItemClearNecessary() == false) {for (uint32 i=_itemCount; i<size; i++) _queue[InternalizeIndex(i)] = GetDefaultItem();}
          _tailIndex = PrevIndex(InternalizeIndex(size));
          _itemCount = size;
       }
